@@ -33,6 +33,7 @@ RULE = ("Hypothesis-generated programs of scenario-API calls (<= 14 operations: 
         "complete table of such calls with a destination that steps by itself or only when triggered (hybrid, event-based). non-trivial = a connect call "
         "with >= 1 invalid and >= 1 valid pair, or simulators in different groups, or a scoping run with sub-steps; "
         "distinct = distinct programs / scenarios")
+RULE += '; every table row also issued inside still open group blocks and with the string shorthand for equally named attributes'
 ASSUMPTIONS = [
     "attribute classification of the generated descriptions is taken from C12's reference solver",
     "the statement does not say whether the valid pairs of a connect() call that raises are established (mosaik "
